@@ -1,0 +1,100 @@
+//go:build verif
+
+// Machine-checked contracts for package types (comment-only; compiled only
+// under the build tag "verif").  Read by /verif/govc; see /verif/DESIGN.md §2.5.
+
+package types
+
+// ---------------------------------------------------------------- currency.go
+
+//@ spec u128(c Currency) int = c.Hi*2^64 + c.Lo
+//@ const M128 = 2^128
+
+//@ axiom ZeroCurrency.Lo == 0 && ZeroCurrency.Hi == 0
+//@ axiom MaxCurrency.Lo == 2^64-1 && MaxCurrency.Hi == 2^64-1
+//@ axiom u128(HastingsPerSiacoin) == 10^24
+
+//@ func NewCurrency
+//@   prop C15
+//@   ensures result.Lo == lo && result.Hi == hi
+
+//@ func NewCurrency64
+//@   prop C15
+//@   ensures u128(result) == c
+
+//@ func (Currency).IsZero
+//@   prop C15
+//@   ensures result == (u128(c) == 0)
+
+//@ func (Currency).Equals
+//@   prop C15
+//@   ensures result == (u128(c) == u128(v))
+
+//@ func (Currency).Cmp
+//@   prop C15
+//@   ensures @order result == (u128(c) < u128(v) ? -1 : (u128(c) == u128(v) ? 0 : 1))
+
+//@ func (Currency).AddWithOverflow
+//@   prop C15
+//@   ensures @flag result1 == (u128(c) + u128(v) >= M128)
+//@   ensures @value u128(result0) == (u128(c) + u128(v)) % M128
+
+//@ func (Currency).Add
+//@   prop C15
+//@   panics-iff u128(c) + u128(v) >= M128
+//@   ensures @exact u128(result) == u128(c) + u128(v)
+
+//@ func (Currency).SubWithUnderflow
+//@   prop C15
+//@   ensures @flag result1 == (u128(c) < u128(v))
+//@   ensures @value u128(result0) == (u128(c) - u128(v)) % M128
+
+//@ func (Currency).Sub
+//@   prop C15
+//@   panics-iff u128(c) < u128(v)
+//@   ensures @exact u128(result) == u128(c) - u128(v)
+
+//@ func (Currency).MulWithOverflow
+//@   prop C15
+//@   ensures @flag result1 == (u128(c) * u128(v) >= M128)
+//@   ensures @value u128(result0) == (u128(c) * u128(v)) % M128
+
+//@ func (Currency).Mul
+//@   prop C15
+//@   panics-iff u128(c) * u128(v) >= M128
+//@   ensures @exact u128(result) == u128(c) * u128(v)
+
+//@ func (Currency).Mul64WithOverflow
+//@   prop C15
+//@   ensures @flag result1 == (u128(c) * v >= M128)
+//@   ensures @value u128(result0) == (u128(c) * v) % M128
+
+//@ func (Currency).Mul64
+//@   prop C15
+//@   panics-iff u128(c) * v >= M128
+//@   ensures @exact u128(result) == u128(c) * v
+
+//@ func (Currency).quoRem64
+//@   prop C15
+//@   panics-iff v == 0
+//@   ensures @divmod u128(q) * v + r == u128(c) && r < v
+
+//@ func (Currency).quoRem
+//@   prop C15
+//@   split n := call:bits.LeadingZeros64#1 in 0..63
+//@   panics-iff u128(v) == 0
+//@   ensures @divmod u128(q) * u128(v) + u128(r) == u128(c) && u128(r) < u128(v)
+
+//@ func (Currency).Div
+//@   prop C15
+//@   panics-iff u128(v) == 0
+//@   ensures @quot u128(result) == u128(c) / u128(v)
+
+//@ func (Currency).Div64
+//@   prop C15
+//@   panics-iff v == 0
+//@   ensures @quot u128(result) == u128(c) / v
+
+//@ func Siacoins
+//@   prop C15
+//@   ensures @exact u128(result) == n * 10^24
